@@ -82,6 +82,19 @@ def gen_cases(rng, tier):
         w = make_world('v%d' % n, rng, 2, 'plain')
         add_volume(w, rng, where)
         add('v%d' % n, w, 'volume')
+    # fd-2 output whose last line is not terminated (it must not glue itself to the report)
+    for tok in ('no line end', '12 apples', '7 0'):
+        n += 1
+        w = make_world('n%d' % n, rng, 2, 'plain')
+        t = w['tests'][w['classes']['TA']['tests'][-1]]
+        t['tearDown'] = list(t.get('tearDown', ())) + [{'a': 'write', 'tok': tok, 'stream': 'stderr', 'via': 'fd', 'nl': False}]
+        add('n%d' % n, w, 'noise-unterminated')
+    for raw in ('fffe', '80', 'c328'):
+        n += 1
+        w = make_world('n%d' % n, rng, 2, 'plain')
+        t = w['tests'][list(w['tests'])[0]]
+        t['setUp'] = [{'a': 'write', 'tok': 'raw bytes ', 'stream': 'stderr', 'via': 'fd', 'rawhex': raw}]
+        add('n%d' % n, w, 'noise-not-utf8')
     for tok, via in [('\xff\xfe binary \x00 junk', 'fd'), ('12 apples 3', 'fd'), ('1 2', 'fd'), ('1 2 3 4', 'fd'),
                      ('Traceback (most recent call last):', 'text'), ('', 'fd')]:
         n += 1
